@@ -110,6 +110,8 @@ func checkC02(c *Ctx) {
 	ruleCharAdvance(c)
 	ruleSpanLen(c)
 	ruleResync(c)
+	ruleResyncNotFound(c)
+	ruleTextResume(c)
 	ruleParaRestStart(c)
 }
 
@@ -449,6 +451,8 @@ func checkC16(c *Ctx) {
 	ruleInlineParserStateless(c)
 	rulePhaseScratch(c)
 	ruleNulView(c)
+	// a definition's label is normalised before the NUL padding is filled in, the same label in the block's Source after
+	ruleNormReader(c)
 }
 
 // INLINE-STATELESS: the inline parser keeps nothing between Rewrite calls.
